@@ -136,9 +136,12 @@ TExit ==
      WithDue(
      IF Ev.called /\ h[K].wait /\ h[K].reply.t # "none"
      THEN (\E n \in 0..3 : HReply(K, n)) /\ ~h'[K].alive            \* PrepareKill, failed load, invalid request
-     ELSE IF Ev.why = "hash" THEN t.t = "Piece" /\ HPiece(K, t.p, t.b, t.good) /\ ~h'[K].alive
-     ELSE IF Ev.why = "keepalive" THEN t.t = "TickKA" /\ HTickKA(K) /\ ~h'[K].alive
-     ELSE IF Ev.why = "badrequest" THEN t.t = "Request" /\ h[K].tx = t.p /\ HRequest(K, t.p, FALSE)
+     \* why a task may end is decided by its trigger and state alone (no error text is interpreted):
+     \* inactivity only at the limit, a block only when it completes a corrupt assembly, a request for the
+     \* loaded piece only if it is out of range
+     ELSE IF t.t = "TickKA" THEN HTickKA(K) /\ ~h'[K].alive
+     ELSE IF t.t = "Piece" /\ h[K].hs /\ t.p \in Pieces THEN HPiece(K, t.p, t.b, t.good) /\ ~h'[K].alive
+     ELSE IF t.t = "Request" /\ h[K].hs /\ h[K].tx = t.p THEN ~t.ok /\ HRequest(K, t.p, FALSE)
      ELSE IF h[K].trig.t = "Start" THEN HConnFail(K)
      ELSE HReject(K))                                                 \* EOF, undecodable input, bad handshake, ...
 
